@@ -2,6 +2,7 @@ pub mod c07;
 pub mod c08;
 pub mod c09;
 pub mod c10;
+pub mod c13;
 pub mod c14;
 pub mod c15;
 pub mod c19;
@@ -22,6 +23,7 @@ pub fn run(ctx: &Ctx) -> i32 {
         "C08" => return c08::run(ctx),
         "C09" => return c09::run(ctx),
         "C10" => return c10::run(ctx),
+        "C13" => return c13::run_check(ctx),
         "C14" => return c14::run(ctx),
         "C15" => return c15::run(ctx),
         "C19" => return c19::run(ctx),
@@ -54,6 +56,10 @@ pub fn replay(_ctx: &Ctx, kind: &str, input: &Value) -> Result<Vec<Violation>, S
         "c08-input" => {
             let inp: c08::Input = serde_json::from_value(input.clone()).map_err(|e| e.to_string())?;
             Ok(c08::replay(&inp))
+        }
+        "c13-input" => {
+            let inp: c13::Input = serde_json::from_value(input.clone()).map_err(|e| e.to_string())?;
+            Ok(c13::replay(&inp))
         }
         "c15-input" => {
             let inp: c15::Input = serde_json::from_value(input.clone()).map_err(|e| e.to_string())?;
